@@ -282,7 +282,7 @@ class Renderer:
             return f"BitVector[{enum_bits(w)}]"
         return ptype(k, w)
 
-    def design(self, idxs, types, top="Top"):
+    def design(self, idxs, types, top="Top", contexts=("c", "s")):
         """source of an Entity evaluating exprs[i] for i in idxs (types[i] = static type) in both contexts.
         probe tags: (ctx, i) with ctx 'c' / 's'."""
         case = self.case
@@ -319,6 +319,8 @@ class Renderer:
             L += ["", "        @std.concurrent", "        def drive():"] + drive
         for ctx, head, var, port in (("c", ["        @std.concurrent", "        def logic():"], "t", "o"),
                                      ("s", ["        @std.sequential(std.Clock(self.clk))", "        def proc():"], "r", "q")):
+            if ctx not in contexts:
+                continue
             L += [""] + head
             for i in idxs:
                 L.append(f"            cohdl.comment('X{i}')")
